@@ -233,7 +233,7 @@ def _timed_oracle(case, impl):
     layer = [int(m.group(1)) for m in re.finditer(r"\bL@(\d+)", impl)]
     if kind != "ni" or rel:
         return []
-    late = [t for (t, k) in inj if k == "R" and t > t0 + 32000]
+    late = [t for (t, k) in inj if k == "R" and t > t0 + 32000][:1]      # later ones are retransmissions of the new transaction
     early = [t for (t, k) in inj if k == "R" and t0 < t < t0 + 32000]
     got = [t for t in layer if t > 0]
     for t in early:
